@@ -115,11 +115,13 @@ impl<T> Vec<T> {
 
         unsafe {
             // safety: `location.bucket` is always in bounds
+            // Acquire: the bucket (including its `active` flags) was initialized by
+            // non-atomic writes of the thread that published the pointer
             let entries = self
                 .buckets
                 .get_unchecked(location.bucket as usize)
                 .entries
-                .load(Ordering::Relaxed);
+                .load(Ordering::Acquire);
 
             // bucket is uninitialized
             if entries.is_null() {
@@ -383,12 +385,13 @@ impl<'v, T> Iterator for Iter<'v, T> {
         debug_assert!(self.end as u64 <= self.vec.inflight.load(Ordering::Relaxed));
 
         loop {
+            // Acquire: see `Vec::get`
             let entries = unsafe {
                 self.vec
                     .buckets
                     .get_unchecked(self.location.bucket as usize)
                     .entries
-                    .load(Ordering::Relaxed)
+                    .load(Ordering::Acquire)
             };
             debug_assert!(self.location.bucket < BUCKETS);
 
